@@ -12,6 +12,7 @@ CONSTANTS
  DevHealthNotChecked <- None
  DevDegradedPasses = FALSE
  DevGateHoisted = FALSE
+ DevIgnoreCtxErrors = FALSE
 INIT Init
 NEXT Next
 INVARIANTS C25_FunctionOfWindow C25_Monotone C25_Gate
